@@ -546,6 +546,23 @@ def materialise(c):
             if how != 'plain':
                 d = nested_window_kwargs(c.get('winsel', c.get('optsel', 0) // 7), n)
             kw[p] = d
+    for key, vk in (c.get('mk_extra') or {}).items():
+        # keys inside method_kwargs that collide with what the optimizer passes itself, are reserved, or unknown
+        mk = kw.get('method_kwargs')
+        if not isinstance(mk, dict):
+            mk = {}
+        if vk == 'scalar':
+            val = 2
+        elif key in ('weights', 'alpha', 'data'):
+            val = 0.2 + 0.8 * rs.random_sample(shape)
+        elif key in ('x_data', 'z_data'):
+            val = np.linspace(0.0, 1.0, shape[0] if key == 'x_data' else shape[-1])
+        elif vk == 'arr_int':
+            val = np.array([2], dtype=np.int64)
+        else:
+            val = np.array(2.0)
+        mk[key] = val
+        kw['method_kwargs'] = mk
     for p, form in (c.get('forms') or {}).items():
         base = kw.get(p)
         if base is None:
@@ -711,7 +728,7 @@ def check_case(ctx, c, kind):
     dim = '2d' if c['two_d'] else '1d'
     ctx.case(('oracle', repr(sorted(c.items(), key=str))), nontrivial=bool(c['args']) or c['data'] != 'c' or c['x'] != 'sorted' or bool(c.get('extra'))
              or bool(c.get('solver')) or c.get('ykind', 'peaks') != 'peaks' or bool(c.get('functional'))
-             or bool(c.get('forms')) or bool(c.get('history')),
+             or bool(c.get('forms')) or bool(c.get('history')) or bool(c.get('mk_extra')),
              kind=f'{kind}:{"raises" if outcome != "ok" else "returns"}')
     if problems:
         ctx.fail(f'mutated:{dim}:{c["method"]}:{argkey}',
@@ -1148,6 +1165,37 @@ def form_grid_cases():
     return cases
 
 
+def reserved_key_grid_cases():
+    """every optimizer x inner method x method_kwargs holding ONE extra key that collides with an argument the optimizer
+    passes itself, is reserved, belongs to the optimizer's own signature, or is unknown -- with array and scalar values.
+    Most of these calls are rejected (TypeError / KeyError); the caller's dict and arrays must be unchanged either way."""
+    from pybaselines import Baseline, Baseline2D
+    cases = []
+    for two_d in (False, True):
+        for mi, name in enumerate(M.method_names(two_d)):
+            params = sig_params(name, two_d)
+            if 'method_kwargs' not in params:
+                continue
+            inners = [None] + (INNER_ALT_2D if two_d else INNER_ALT_1D).get(name, [])[:3]
+            for ii, inner in enumerate(inners):
+                iname = inner or params['method'].default
+                icls = Baseline if (not two_d or name == 'individual_axes') else Baseline2D
+                ipars = list(inspect.signature(getattr(icls, iname)).parameters) if hasattr(icls, iname) else []
+                keys = list(dict.fromkeys(
+                    [k for k in ipars if k not in ('self', 'data')] + [k for k in params if k not in ('self', 'data')]
+                    + ['x_data', 'z_data', 'data', 'weights', 'alpha', 'poly_order', 'lam', 'tol', 'tol_2', 'no_such_option']))
+                for ki, key in enumerate(keys):
+                    for vk in ('arr', 'arr_int', 'scalar'):
+                        if vk == 'arr_int' and key in ('weights', 'alpha', 'data', 'x_data', 'z_data'):
+                            continue
+                        extra = {} if inner is None else {'method': inner}
+                        cases.append({'two_d': two_d, 'method': name, 'seed': 40000 + 200 * mi + 50 * ii + ki, 'mode': 'rgrid',
+                                      'n': 40 if not two_d else 12, 'm': 11, 'data': 'c', 'x': 'sorted', 'xlay': 'c',
+                                      'args': {'method_kwargs': 'plain'}, 'raise_at': None, 'extra': extra, 'ykind': 'peaks',
+                                      'optsel': 0, 'solver': None, 'mk_extra': {key: vk}})
+    return cases
+
+
 def history_grid_cases():
     """every method on an object with a HISTORY: a call rejected up front (data of the wrong length), a call that fails deep
     inside (injected failure of the convergence measure), then the valid call; all arguments of all three calls are
@@ -1321,7 +1369,8 @@ def search(ctx, budget):
     # fixed, enumerated grids first
     for kind, cases in (('oracle:weight-grid', weight_grid_cases()), ('oracle:option-solver-grid', param_grid_cases()),
                         ('oracle:branch-grid', branch_grid_cases()), ('oracle:nested-option-grid', nested_grid_cases()),
-                        ('oracle:container-form-grid', form_grid_cases()), ('oracle:history-grid', history_grid_cases())):
+                        ('oracle:container-form-grid', form_grid_cases()), ('oracle:history-grid', history_grid_cases()),
+                        ('oracle:reserved-key-grid', reserved_key_grid_cases())):
         for c in cases:
             try:
                 check_case(ctx, c, kind)
